@@ -452,6 +452,9 @@ func writeASCIISTL(rng *rand.Rand, normals [][3]float32, verts [][3][3]float32) 
 	ffmt := rng.Intn(5)
 	var b strings.Builder
 	nl := "\n"
+	if rng.Intn(4) == 0 {
+		nl = "\r\n" // written on Windows
+	}
 	if name == "" {
 		b.WriteString("solid" + nl)
 	} else {
@@ -486,7 +489,7 @@ func writeASCIISTL(rng *rand.Rand, normals [][3]float32, verts [][3][3]float32) 
 		}
 	}
 	b.WriteString(tail)
-	return b.String(), map[string]interface{}{"solid_name": name, "final_newline": finalNL, "indent": indentUnit, "float_format": ffmt, "triangles": len(verts)}
+	return b.String(), map[string]interface{}{"solid_name": name, "final_newline": finalNL, "crlf": nl != "\n", "indent": indentUnit, "float_format": ffmt, "triangles": len(verts)}
 }
 
 func stlASCII(r *vlib.Run) {
